@@ -139,8 +139,8 @@ public:
         boost::tie(it,is_new_monomial) = monomials.insert(std::make_pair(monomial_t(0),alpha));
         if(!is_new_monomial){
             it->second += alpha;
-            erase_zero_monomial(monomials,it);
         }
+        erase_zero_monomial(monomials,it);
         return *this;
     }
     
@@ -151,8 +151,8 @@ public:
         boost::tie(it,is_new_monomial) = monomials.insert(std::make_pair(monomial_t(0),-alpha));
         if(!is_new_monomial){
             it->second -= alpha;
-            erase_zero_monomial(monomials,it);
         }
+        erase_zero_monomial(monomials,it);
         return *this;
     }
     
